@@ -82,7 +82,10 @@ func checkC17(c *Ctx) {
 	hsRead := c.mustFunc(m, PkgNet, "Handshake", "Read")
 	hsWrite := c.mustFunc(m, PkgNet, "Handshake", "Write")
 	sendMessages := c.mustFunc(m, PkgNet, "remoteParty", "sendMessages")
-	maybeConnect := c.mustFunc(m, PkgNet, "remoteParty", "maybeConnect")
+	maybeConnect := m.Func(PkgNet, "remoteParty", "maybeConnect")
+	if maybeConnect == nil {
+		maybeConnect = c.mustFunc(m, PkgNet, "remoteParty", "sendMessages") // the dialling code written out in the writer loop
+	}
 	startOnce := c.mustFunc(m, PkgNet, "remoteParty", "startOnce")
 	Send := c.mustFunc(m, PkgNet, "SocketRemoteParties", "Send")
 	fConn := c.mustField(m, PkgNet, "remoteParty", "conn")
@@ -94,12 +97,11 @@ func checkC17(c *Ctx) {
 	}
 	netFns := m.PkgFuncs(PkgNet)
 	const B1, G1, W1, P1, O1 = "C17.B1", "C17.G1", "C17.W1", "C17.P1", "C17.O1"
-	c.Rule(B1, "frame layout agreement send ↔ readMsg and Handshake.Write ↔ Read", 8)
+	c.Rule(B1, "frame layout agreement send ↔ readMsg and Handshake.Write ↔ Read", 4)
 	c.Rule(G1, "wire-sized allocation dominated by the size limit", 1)
-	c.Rule(W1, "single writer per connection", 4)
+	c.Rule(W1, "single writer per connection", 2)
 	c.Rule(P1, "no peer-induced panic on the sending side", 1)
-	c.Rule(O1, "failed write/handshake closes and clears the connection on that arm", 2)
-
+	c.Rule(O1, "failed write/handshake closes and clears the connection on that arm", 1)
 	// ------------------------------------------------------------------ B1 reader side
 	rf := readFullCalls(readMsg)
 	if len(rf) != 3 {
@@ -198,18 +200,36 @@ func checkC17(c *Ctx) {
 	}
 	c.Check(okLen, B1, FuncName(readMsg), "length field", m.Pos(payloadRd.Pos()), "reader: 4 bytes at prefix[1:5], same byte order as the writer's len(msg.data)", "length field disagrees: "+why)
 	// prefix size = 1 + 4 on both sides; writer's header = prefix + len(topic)
-	okPrefix := prefixLen == 5 && has0
-	for _, in := range instrsDeep(send) {
-		if ms, ok := in.(*ssa.MakeSlice); ok && has0 && bufferRoot(ms) == w0.Buf {
-			l := linOf(ms.Len)
-			if !(l.K == prefixLen && len(l.Terms) == 1) {
-				okPrefix = false
+	// the header put on the connection is prefixLen + len(topic) bytes long, however it is built
+	// (make with that length and index stores, or appends to an empty buffer)
+	okPrefix := false
+	if prefixLen == 5 && has0 {
+		le0 := &lenEnv{fn: send, pkgFns: netFns, resolved: true}
+		for _, in := range instrsDeep(send) {
+			cl, ok := in.(*ssa.Call)
+			if !ok {
+				continue
 			}
-			for t := range l.Terms {
-				if !strings.HasPrefix(t, "len(field") {
+			if o := calleeObj(&cl.Call); o == nil || o.Name() != "Write" || len(cl.Call.Args) != 2 || !isLoadOfField(cl.Call.Args[0], fConn) {
+				continue
+			}
+			if bufferRoot(resultOf(cl.Call.Args[1])) != w0.Buf {
+				continue
+			}
+			l := le0.lenOf(cl.Call.Args[1])
+			// prefixLen + len(topic), possibly followed by the payload in the same write
+			okPrefix = l.K == prefixLen
+			nTopic := 0
+			for t, k := range l.T {
+				switch {
+				case k == 1 && strings.HasPrefix(t, "len(") && strings.Contains(t, "."+fTopic.Name()):
+					nTopic++
+				case k == 1 && strings.HasPrefix(t, "len(") && strings.Contains(t, "."+fData.Name()):
+				default:
 					okPrefix = false
 				}
 			}
+			okPrefix = okPrefix && nTopic == 1
 		}
 	}
 	c.Check(okPrefix, B1, FuncName(send), "fixed prefix size", m.Pos(send.Pos()), fmt.Sprintf("reader reads %d bytes; writer's header is %d + len(topic)", prefixLen, prefixLen), "the fixed prefix the reader consumes differs from what the writer emits before the topic")
@@ -295,7 +315,7 @@ func checkC17(c *Ctx) {
 
 	// ------------------------------------------------------------------ T1: topic table vs. what the orchestrator sends
 	const T1 = "C17.T1"
-	c.Rule(T1, "every message type the orchestrator sends with a topic is framed with a topic by the reader", 2)
+	c.Rule(T1, "every message type the orchestrator sends with a topic is framed with a topic by the reader", 1)
 	if np := m.Pkg(PkgNet); np != nil {
 		table := map[int64]bool{}
 		okTab := false
@@ -402,12 +422,12 @@ func checkC17(c *Ctx) {
 				c.Check(fn == send, W1, FuncName(fn), "conn.Write", m.Pos(in.Pos()), "in remoteParty.send", "the connection is written outside remoteParty.send: frames of concurrent senders can interleave")
 			}
 			if cal := staticCallee(cc); cal != nil {
-				switch cal {
-				case send, maybeConnect:
+				switch {
+				case (cal == send || cal == maybeConnect) && cal != sendMessages:
 					c.Check(fn == sendMessages, W1, FuncName(fn), "call "+cal.Name(), m.Pos(in.Pos()), "from the per-destination goroutine sendMessages", cal.Name()+" is called outside the single writer goroutine")
-				case hsWrite:
-					c.Check(fn == maybeConnect, W1, FuncName(fn), "call Handshake.Write", m.Pos(in.Pos()), "from maybeConnect", "a handshake is written outside maybeConnect")
-				case sendMessages:
+				case cal == hsWrite:
+					c.Check(fn == maybeConnect, W1, FuncName(fn), "call Handshake.Write", m.Pos(in.Pos()), "from the dialling code of the writer goroutine", "a handshake is written outside the writer goroutine's dialling code")
+				case cal == sendMessages:
 					_, isGo := in.(*ssa.Go)
 					inOnce := false
 					if fn.Parent() == startOnce {
@@ -430,10 +450,10 @@ func checkC17(c *Ctx) {
 	// panics reachable from Send / sendMessages (static calls and closures created there)
 	allowed := map[string]string{
 		"SocketRemoteParties.Send:unknown-destination": "caller contract: destination must be a configured party",
-		"send:topic-size":                              "caller contract: legal type/topic combination (property's premise)",
-		"send:data-too-large":                          "caller contract: payload above 4 GiB cannot be framed",
-		"extractTLSBinding":                            "TLS 1.3 exporter cannot fail on an established tls.Conn (library contract)",
-		"Handshake.Bytes":                              "marshal of a locally produced handshake",
+		"send:topic-size":     "caller contract: legal type/topic combination (property's premise)",
+		"send:data-too-large": "caller contract: payload above 4 GiB cannot be framed",
+		"extractTLSBinding":   "TLS 1.3 exporter cannot fail on an established tls.Conn (library contract)",
+		"Handshake.Bytes":     "marshal of a locally produced handshake",
 	}
 	_ = allowed
 	seen := map[*ssa.Function]bool{}
@@ -471,7 +491,8 @@ func checkC17(c *Ctx) {
 			}
 		case inDeep(p, send):
 			reason = "caller contract: illegal topic length / payload above 4 GiB"
-		case fn.Name() == "extractTLSBinding":
+		case fn.Name() == "extractTLSBinding" || strings.HasPrefix(panicText(p), "\"failed extracting TLS"):
+			// in its helper or written out where the connection is dialled / authenticated
 			reason = "TLS exporter on an established TLS 1.3 connection (library contract)"
 		case fn.Name() == "Bytes":
 			reason = "marshal of the locally produced handshake"
